@@ -432,8 +432,17 @@ def hamming(a, b):
 
 def read_symbol(matrix, correct=True):
     """Decode a module matrix (sequence of sequences of 0/1) completely.
-    Returns a Symbol with all intermediate artefacts. Raises DecodeError."""
+    Returns a Symbol with all intermediate artefacts. Raises DecodeError; the
+    exception carries what was established until then as `.partial`."""
     s = Symbol()
+    try:
+        return _read_symbol(s, matrix, correct)
+    except DecodeError as ex:
+        ex.partial = s
+        raise
+
+
+def _read_symbol(s, matrix, correct):
     size = len(matrix)
     s.size = size
     s.problems = []   # structural problems (strings)
